@@ -354,6 +354,7 @@ class Exec(object):
 
 
 _MODSTATE = {}
+_CALL_TIMEOUTS = [0]
 
 
 def reset_module_state():
@@ -417,10 +418,12 @@ def execute(kind, n, witness, op, pre=None, raise_at=(), persist=None, snap=Fals
     ex.exc = None
     ex.mro = ()
     try:
-        with core.time_limit(3):
+        with core.time_limit(3 if _CALL_TIMEOUTS[0] < 3 else 0.3):
             u.apply(op)
         ex.outcome = "ok"
     except (Exception, core.CaseTimeout) as exc:  # noqa - everything the call raises is an observation
+        if isinstance(exc, core.CaseTimeout):
+            _CALL_TIMEOUTS[0] += 1
         ex.outcome = "InjectedFault" if isinstance(exc, InjectedFault) else type(exc).__name__
         ex.exc = exc
         ex.mro = tuple(c.__name__ for c in type(exc).__mro__)
